@@ -61,7 +61,7 @@ let kind_of_string s =
 let string_of_kind k = fst (List.find (fun (_, k') -> k' = k) kind_names)
 
 let string_of_res (f : 'a -> string) (r : 'a res) : string =
-  match r with Ok a -> "OK " ^ f a | Abort -> "ABORT" | Diverge -> "DIVERGE"
+  match r with Ok a -> "OK " ^ f a | Abort -> "ABORT" | Diverge -> "DIVERGE" | Fault -> "FAULT"
 
 let string_of_zlist (l : z list) : string = String.concat "," (List.map string_of_z l)
 let zlist_of_string (s : string) : z list =
